@@ -449,29 +449,64 @@ func runC13(r *an.Run) {
 				}
 				seenTag[tag] = t
 			}
-			// reader: case tag -> constructor's first result type
+			// reader: case tag -> the resolver type produced under that case.
+			// The case is identified by its tag, the constructor by what it
+			// returns (a concrete ContractResolver implementation), wherever the
+			// dispatch sits after normalisation: in the ForEach closure
+			// (`res, err = newX(...)`) or in a helper the loader inlined as an
+			// immediately invoked literal (`return newX(...)`).
+			resolverIface := p.LookupType("contractcourt", "ContractResolver").Underlying().(*types.Interface)
 			readOf := map[string]string{}
-			for _, lf := range rd.Lits {
-				ast.Inspect(lf.Body, func(n ast.Node) bool {
-					cl, ok := n.(*ast.CaseClause)
-					if !ok || len(cl.List) != 1 {
-						return true
-					}
-					tag := an.Text(cl.List[0])
-					for _, st := range cl.Body {
-						as, ok := st.(*ast.AssignStmt)
-						if !ok || len(as.Rhs) != 1 {
-							continue
+			ast.Inspect(rd.Root().Body, func(n ast.Node) bool {
+				cl, ok := n.(*ast.CaseClause)
+				if !ok || len(cl.List) != 1 {
+					return true
+				}
+				if tv := rd.Info().TypeOf(cl.List[0]); tv == nil || an.TypeID(tv) != cc+"resolverType" {
+					return true
+				}
+				tag := an.Text(cl.List[0])
+				var made []string
+				for _, st := range cl.Body {
+					ast.Inspect(st, func(m ast.Node) bool {
+						if _, nested := m.(*ast.CaseClause); nested {
+							return false
 						}
-						if call, ok := as.Rhs[0].(*ast.CallExpr); ok {
-							if sig, ok := lf.Info().TypeOf(call.Fun).(*types.Signature); ok && sig.Results().Len() > 0 {
-								readOf[tag] = an.TypeID(sig.Results().At(0).Type())
+						call, ok := m.(*ast.CallExpr)
+						if !ok {
+							return true
+						}
+						sig, ok := rd.Info().TypeOf(call.Fun).(*types.Signature)
+						if !ok || sig.Results().Len() == 0 {
+							return true
+						}
+						rt := sig.Results().At(0).Type()
+						if _, isI := rt.Underlying().(*types.Interface); isI || !types.Implements(rt, resolverIface) {
+							return true
+						}
+						id := an.TypeID(rt)
+						for _, have := range made {
+							if have == id {
+								return true
 							}
 						}
+						made = append(made, id)
+						return true
+					})
+				}
+				switch len(made) {
+				case 0:
+				case 1:
+					if prev, dup := readOf[tag]; dup && prev != made[0] {
+						readOf[tag] = prev + " and " + made[0]
+					} else {
+						readOf[tag] = made[0]
 					}
-					return true
-				})
-			}
+				default:
+					readOf[tag] = strings.Join(made, " and ")
+				}
+				return true
+			})
 			for t, tag := range tagOf {
 				o.Site("read: %s -> %s", tag, readOf[tag])
 				if readOf[tag] != t {
